@@ -2121,8 +2121,9 @@ def _wide_value(kind, fmt, i):
 
 
 _B0, _B3, _B4 = BLOCKS[0], BLOCKS[3], BLOCKS[4]
-# family -> (mesh carriers, extra precision, slots [(path in the canonical model, reference format)]): slots in
-# writing order, two on one line, one in another record of the same kind, one in another record kind
+# family -> (mesh carriers, extra precision, slots [(path in the canonical model, reference format)]): two slots on
+# one line, one in another record kind, one in another record of the same kind (every assignment of kinds to the
+# slots is enumerated, so every writing order of the kinds occurs)
 WIDE_FAMILIES = [
     ('main:10.4e', ('in',), None, [(('ROCKS', 0, 'conductivity'), '10.4e'), (('ROCKS', 0, 'specific_heat'), '10.4e'),
                                    (('PARAM', 'gravity'), '10.4e'), (('ROCKS', 1, 'density'), '10.4e')]),
@@ -2239,7 +2240,7 @@ def _wide(case):
                 before = '+'.join(k for p, f, k, x, c, t in want[:pos]) or 'first'
                 viol.append(('C01|%s|%s|value-not-to-the-digits-of-its-field|%s|%s|after=%s|%s'
                              % (step, tag, fmt, kind, before, inp),
-                             '%s: %s = %r comes back as %r; a %s field carries %r (%s), values written to the file '
+                             '%s: %s = %r comes back as %r; a %s field carries %r (%s), kinds in the slots '
                              'before it: %s' % (step, '/'.join(str(p) for p in path), v, got, fmt, text, carried, before)))
         diffs = t2canon.compare(E, C, **_cmp_kwargs(mode, 'wide'))
         _diff_viol(step + '|' + tag, diffs, inp, viol, 'model with over-wide values: the rest of the model')
